@@ -1,3 +1,4 @@
+import GPy.C09.Gen
 import GPy.C08.Gen
 import GPy.C14.Gen
 import GPy.C02.Gen
@@ -35,6 +36,7 @@ def main (args : List String) : IO UInt32 := do
     | "C02" => GPy.C02.genMain tier seed; return 0
     | "C14" => GPy.C14.genMain tier seed; return 0
     | "C08" => GPy.C08.genMain tier seed; return 0
+    | "C09" => GPy.C09.genMain tier seed; return 0
     | _ => IO.eprintln s!"unknown property {prop}"; return 2
   | ["C12verify"] => GPy.C12.verifyMain; return 0
   | _ => IO.eprintln "usage: gpymodel <Cxx> <quick|thorough> <seed>"; return 2
